@@ -4,3 +4,4 @@ from . import schema      # noqa: F401
 from . import payload     # noqa: F401
 from . import coord_payload  # noqa: F401
 from . import fiber  # noqa: F401
+from . import iterators  # noqa: F401
